@@ -285,7 +285,7 @@ jsoncons::expected<void,std::error_code> parse_primitive(jsoncons::span<char> to
             case parse_number_state::zero:
                 if (c == '.')
                 {
-                    state = parse_number_state::digits;
+                    state = parse_number_state::fraction;
                     ++i;
                 }
                 else
@@ -302,7 +302,7 @@ jsoncons::expected<void,std::error_code> parse_primitive(jsoncons::span<char> to
                 }
                 break;
             case parse_number_state::digits:
-                if ((c >= '0' && c <= '9') || c == '-')
+                if (c >= '0' && c <= '9')
                 {
                     num_str.push_back(c);
                     ++i;
@@ -374,6 +374,12 @@ jsoncons::expected<void,std::error_code> parse_primitive(jsoncons::span<char> to
                 not_a_number = true;
                 break;
         }
+    }
+
+    if ((state == parse_number_state::fraction && decimal_places == 0) || (state == parse_number_state::digits && num_str.empty())
+        || ((state == parse_number_state::exponent_sign || state == parse_number_state::exponent_value) && exponent_str.empty()))
+    {
+        not_a_number = true; // "1.", "-", "1e", "1e+": a number needs digits after the point and in the exponent
     }
 
     if (not_a_number)
